@@ -26,7 +26,7 @@ PROPS = {
     "C10": {"theorems": ["C10_deep_binary_application_is_a_homomorphism", "C10_deep_unary_application_is_a_homomorphism", "C10_flat_binary_application_is_a_homomorphism", "C10_flat_unary_application_is_a_homomorphism", "C10_unknown_binary_name_is_error_partial", "C10_unknown_unary_name_is_error_partial", "C10_not_a_unary_operator_is_error_partial"], "modes": [{"name": "c10", "quick_n": 400, "thorough_n": 3000, "shard": 40}, {"name": "c10s", "quick_n": 400, "thorough_n": 3000, "shard": 40}]},
     "C11": {"theorems": ["C11_substitution_is_simultaneous", "C11_replacement_evaluated_on_its_own_variables", "C11_named_denotation", "C11_parsed_expressions_qualify", "C11_flat_substitution"], "modes": [{"name": "c11", "quick_n": 400, "thorough_n": 3000, "shard": 40}]},
     "C12": {"theorems": ["C12_flat_unparse_is_source_text_partial"], "modes": [{"name": "c12", "quick_n": 400, "thorough_n": 3000, "shard": 60}, {"name": "c12d", "quick_n": 150, "thorough_n": 1500, "shard": 20}]},
-    "C13": {"theorems": ["C13_extended_name_is_variable", "C13_sign_unary_iff", "C13_numeric_literal", "C13_brace_is_one_var"], "modes": [{"name": "c13", "quick_n": 3, "thorough_n": 12, "shard": 120}]},
+    "C13": {"theorems": ["C13_extended_name_is_variable", "C13_sign_unary_iff", "C13_numeric_literal", "C13_brace_is_one_var", "C13_longest_operator_name_wins"], "modes": [{"name": "c13", "quick_n": 3, "thorough_n": 12, "shard": 120}]},
     "C15": {"theorems": ["C15_consuming_eq_cloning", "C15_arity"], "modes": [{"name": "c15", "quick_n": 150, "thorough_n": 1500, "shard": 60}]},
     "C05": {"theorems": ["C05_rule_names_match_code_partial", "C05_no_rule_for_nondifferentiable_partial", "C05_missing_binary_rule_is_error_partial"], "modes": [{"name": "c05", "quick_n": 400, "thorough_n": 3000, "shard": 30}]},
     "C09": {"theorems": ["C09_index_checked_first_partial", "C09_order_zero_partial"], "modes": [{"name": "c09", "quick_n": 200, "thorough_n": 1500, "shard": 20}]},
